@@ -114,15 +114,17 @@ def check(ctx):
     for n, c in calls:
         states = []
         for k in g.fact_keys_at(n):
-            if k[1] and 'self.state' in k[0]:
-                states.append(k[0])
+            if 'self.state' in k[0] and (k[1] or ' and ' in k[0]):      # positive atoms and (de Morgan form of) disjunctions of states
+                states.append(k)
         table.setdefault(tuple(sorted(states)), []).append((n.line, norm(c.func.value).split('.')[-1]))
     got = {k: [x[1] for x in sorted(v)] for k, v in table.items()}
-    want = {(fact_key('self.state == State.INITIALIZED')[0],): ['connection_failed'],
-            (fact_key('self.state == State.CONNECTED or self.state == State.SETUP_FINISHED')[0],): ['disconnected', 'connection_lost'],
-            (fact_key('self.state == State.DISCONNECTED')[0],): ['disconnected_link_error']}
-    for k, v in want.items():
-        ctx.inst('R3', le, 'fan-out:' + k[0][:40], got.get(k) == v, 'in %s a link error must produce %s in that order; found %s' % (k[0], v, got.get(k)))
+    spec = [('self.state == State.INITIALIZED', ['connection_failed']),
+            ('self.state == State.CONNECTED or self.state == State.SETUP_FINISHED', ['disconnected', 'connection_lost']),
+            ('self.state == State.DISCONNECTED', ['disconnected_link_error'])]
+    want = {(fact_key(t),): v for t, v in spec}
+    for t, v in spec:
+        k = (fact_key(t),)
+        ctx.inst('R3', le, 'fan-out:' + t[:40], got.get(k) == v, 'in %s a link error must produce %s in that order; found %s' % (t, v, got.get(k)))
     ctx.inst('R3', le, 'fan-out-complete', set(got) == set(want), 'states handled: %s' % sorted(got))
     ends = [n for n in g.nodes if n.kind == 'stmt' and isinstance(n.ast, ast.Assign) and norm(n.ast.targets[0]) == 'self.state']
     ok = len(ends) == 1 and norm(ends[0].ast.value) == 'State.DISCONNECTED' and ('n', ends[0].id) in g.dom()[('n', g.exit.id)] and all(g.path_avoiding(ends[0], [n]) is None for n, _ in calls)
